@@ -523,6 +523,7 @@ line_st = st.text(alphabet=TEXT, min_size=1, max_size=12).map(lambda s: _clean(s
 first_st = st.one_of(line_st, line_st, st.just(""))
 cont_st = st.one_of(line_st.map(lambda s: " " + s), st.just(" ."), line_st.map(lambda s: "  " + s))
 value_st = st.builds(lambda f, cs: "\n".join([f] + cs), first_st, st.lists(cont_st, max_size=3))
+nonempty_value_st = st.builds(lambda f, cs: "\n".join([f] + cs), line_st, st.lists(cont_st, max_size=3))
 FIELD_POOL = ["Version", "Architecture", "Maintainer", "Description", "Depends", "Section", "Priority",
               "Installed-Size", "Homepage", "X-Custom", "description-md5", "!odd$name", "a"]
 fieldname_st = st.one_of(st.sampled_from(FIELD_POOL),
@@ -567,7 +568,8 @@ def _prune(files):
 
 
 file_st = st.tuples(filename_st, content_st.map(latin))
-files_st = st.integers(0, 5).flatmap(lambda n: st.lists(file_st, min_size=n, max_size=n)).map(_prune)
+files_st = st.one_of(st.lists(file_st, max_size=5), st.lists(file_st, min_size=2, max_size=5),
+                     st.lists(file_st, min_size=1, max_size=3)).map(_prune)
 scripts_st = st.lists(st.tuples(st.booleans(), content_st.map(latin)), min_size=5, max_size=5).map(
     lambda picks: dict((name, body) for name, (on, body) in zip(SCRIPTS, picks) if on))
 pair_st = st.tuples(st.sampled_from(COMPS), st.sampled_from(COMPS))
@@ -600,7 +602,7 @@ def dpkg_control_st(draw):
               ["Maintainer", draw(line_st)],
               ["Description", "\n".join([draw(line_st)] + draw(st.lists(cont_st, max_size=3)))]]
     extra = draw(st.lists(st.tuples(st.text(alphabet="abcXYZ019-", min_size=1, max_size=6).map(lambda s: "X-" + s.strip("-") + "z"),
-                                    value_st), max_size=3))
+                                    nonempty_value_st), max_size=3))
     seen = set(k.lower() for k, _ in fields)
     for k, v in extra:
         if k.lower() not in seen:
